@@ -595,6 +595,15 @@ class Sim:
             return v
         if ck in ('IntegralToFloating', 'FloatingCast', 'FloatingToIntegral'):
             return ('app', ck, (self.rv(e),))
+        if ck in ('PointerToIntegral', 'IntegralToPointer'):
+            # reinterpret_cast between a pointer and an integer: the same marker as std::bit_cast (the value is an address)
+            if n.get('const_cast') or n.get('cstyle') or n.get('reinterpret'):
+                self.event({'kind': 'cast', 'line': n.get('line'), 'ck': ck, 'const_cast': bool(n.get('const_cast')),
+                            'cstyle': bool(n.get('cstyle')), 'to': n['to'].get('t'), 'from': n['from'].get('t')})
+            v = self.rv(e)
+            if ck == 'PointerToIntegral':
+                return v if (isinstance(v, tuple) and v and v[0] == 'ptrint') or is_const(v) else ('ptrint', v)
+            return v[1] if isinstance(v, tuple) and v and v[0] == 'ptrint' else v
         if ck in ('BitCast', 'NoOp', 'LValueBitCast', 'ToVoid', 'Dependent', 'IntegralToPointer',
                   'PointerToIntegral', 'DerivedToBase', 'UncheckedDerivedToBase', 'BaseToDerived'):
             if n.get('const_cast') or n.get('cstyle') or n.get('reinterpret'):
